@@ -347,6 +347,10 @@ func run(c *enum.Ctx) {
 	doSet := func(slot int, set []pr, full bool) {
 		states.Add(1)
 		nt := nontrivial(set)
+		// the cases of one multiset are de-duplicated here (orders of equal pairs coincide); cases of
+		// different multisets differ, so the distinct ones are counted, not kept
+		local := map[uint64]struct{}{}
+		defer func() { c.NontrivialN(int64(len(local))) }()
 		for _, pm := range perms(len(set)) {
 			ord := make([]pr, len(set))
 			for i, x := range pm {
@@ -371,7 +375,7 @@ func run(c *enum.Ctx) {
 					trans.Add(int64(len(set)))
 					check(c, k)
 					if nt {
-						c.NontrivialH(enum.Hash64(enum.J(k)))
+						local[enum.Hash64(enum.J(k))] = struct{}{}
 					}
 				}
 				if full && len(set) > 1 {
@@ -391,7 +395,7 @@ func run(c *enum.Ctx) {
 							trans.Add(int64(len(set) + len(before)))
 							check(c, k)
 							if nt {
-								c.NontrivialH(enum.Hash64(enum.J(k)))
+								local[enum.Hash64(enum.J(k))] = struct{}{}
 							}
 						}
 					}
@@ -422,6 +426,9 @@ func run(c *enum.Ctx) {
 	})
 	enum.Parallel(len(pb), func(i int) {
 		for j := i; j < len(pb); j++ {
+			if pb[i].A.L == 0 && pb[i].B.L == 0 && pb[j].A.L == 0 && pb[j].B.L == 0 {
+				continue // everything on the first location: enumerated above
+			}
 			doSet(i, []pr{pb[i], pb[j]}, true)
 		}
 	})
